@@ -40,17 +40,17 @@ func GenProbes(t *rapid.T) []refmodel.RObjectSetProbe {
 
 // SetGenOpts tunes GenSet.
 type SetGenOpts struct {
-	MaxPhases   int
-	MaxObjs     int
-	AllowClass  bool     // phases may be delegated (class default)
-	Classes     []string // classes to draw from when delegated
-	AllowSliced bool
+	MaxPhases    int
+	MaxObjs      int
+	AllowClass   bool     // phases may be delegated (class default)
+	Classes      []string // classes to draw from when delegated
+	AllowSliced  bool
 	AllowCluster bool
-	PoolSize    int
-	CPs         []string
-	ChainBias   bool // later sets usually declare all earlier ones as previous
-	Specials    []string // violating-object classes to mix in (C11)
-	SpecialRate int      // one in SpecialRate objects is special (default 4)
+	PoolSize     int
+	CPs          []string
+	ChainBias    bool     // later sets usually declare all earlier ones as previous
+	Specials     []string // violating-object classes to mix in (C11)
+	SpecialRate  int      // one in SpecialRate objects is special (default 4)
 	// Exclusive: pool indexes already used are avoided (no duplicates inside one set is always enforced).
 }
 
